@@ -816,6 +816,14 @@ fn main() {
     };
     // the client library's side of the property first (cheap, exhaustive, no time cap)
     let client_cases = client_part(&rep, cli.tier);
+    // the client part's verdict must not be lost to anything that happens in the schedule exploration
+    if rep.violation_count() > 0 {
+        rep.set("states", client_cases);
+        rep.set("transitions", client_cases);
+        rep.set("client_library_cases", client_cases);
+        rep.set("exhaustive", false);
+        rep.finish();
+    }
     // quick: every schedule with at most 2 departures from the default order, for both cases
     // (deterministic work); the wall-clock cap is a safety net
     let max_level: usize = cli.tier.pick(2, 64) as usize;
